@@ -735,12 +735,16 @@ class Povm(QOperation):
                 eigenvals, eigenvecs = np.linalg.eigh(matrix)
                 spectral_decomp = dict()
                 eigenval_prev = None
-                for eigenval, eigenvec in zip(eigenvals, eigenvecs):
+                for eigenval, eigenvec in zip(eigenvals, eigenvecs.T):
                     if eigenval_prev == eigenval:
-                        P = np.dot(np.array([eigenvec]).T, np.array([eigenvec]))
+                        P = np.dot(
+                            np.array([eigenvec]).T, np.array([eigenvec]).conjugate()
+                        )
                         spectral_decomp[eigenval].append(P)
                     else:
-                        P = np.dot(np.array([eigenvec]).T, np.array([eigenvec]))
+                        P = np.dot(
+                            np.array([eigenvec]).T, np.array([eigenvec]).conjugate()
+                        )
                         spectral_decomp[eigenval] = [P]
                     eigenval_prev = eigenval
 
